@@ -48,6 +48,11 @@ def cases(rng, tier):
                             f"toy.asm {toyasmgen.hx('.data' + chr(10) + 'x: .word ' + ','.join(['1'] * 4000) + chr(10) + '.text' + chr(10) + chr(10).join(['INC'] * 200))}"],
                None, {"text": "INC*4097", "kind": "too-big"})
     yield Case("rv-text", [f"asm {rvasmgen.hx('.data' + chr(10) + 'z: .zero 1073741823' + chr(10) + 'w: .word 1, 2' + chr(10) + '.text' + chr(10) + 'nop')}"], None, {"text": "zero-wrap", "kind": "too-big"})
+    # run-time faults in every pipeline situation (stalled decode, ecall drain, squashed), independent of the seed
+    for prog, regs in rvgen.fault_schedule_programs():
+        for mode in ("five", "single"):
+            lines = rvgen.header(mode, True, "-", "-", prog, regs, []) + ["sim.run 200", "sim.snap"]
+            yield Case("rv-run-" + mode, lines, None, {"mode": mode, "hazard": True, "prog": prog, "regs": regs, "pokes": [], "d": "-", "i": "-"})
     # run-time faults
     for i in range(150 if tier == "quick" else 3000):
         mode = "five" if i % 2 else "single"
